@@ -33,6 +33,7 @@ def optOf (j : Json) : Option Opt :=
   | "osenv" => some .withOsEnv
   | "envfiles" => some (.withEnvFiles ((getStrList j "l").map String.toList))
   | "dotenv" => some .withDotEnv
+  | "workdir" => some (.withWorkDir (getBool j "alt"))
   | _ => none
 
 def worldOf (a : Json) : World where
@@ -46,6 +47,10 @@ def worldOf (a : Json) : World where
     | .ok (.obj o) => some (envFileOf (.obj o))
     | _ => none
   probe := (getStr a "probe").toList
+  altDir := (getStr a "altdir").toList
+  altDotEnv := match a.getObjVal? "altdotenv" with
+    | .ok (.obj o) => some (envFileOf (.obj o))
+    | _ => none
 
 /-- first binding of each key (the visible one), as a JSON object -/
 def dedupe : Env → List Str → Env
@@ -81,11 +86,14 @@ def isUnder : Opt → Bool
 /-- the order the API documents: explicit and OS variables first, env files selected, then `WithDotEnv` last of
     the environment options; each of `WithOsEnv` / `WithEnvFiles` / `WithDotEnv` at most once -/
 def documented (opts : List Opt) : Bool :=
-  let envOpts := opts.filter fun | .withName _ => false | _ => true
+  let envOpts := opts.filter fun | .withName _ => false | .withWorkDir _ => false | _ => true
+  -- the working directory is chosen before the env files are selected
+  let workdirEarly := (opts.dropWhile fun | .withEnvFiles _ => false | _ => true).all
+    fun | .withWorkDir _ => false | _ => true
   let nOs := (envOpts.filter (· == .withOsEnv)).length
   let nDot := (envOpts.filter (· == .withDotEnv)).length
   let nFiles := (envOpts.filter fun | .withEnvFiles _ => true | _ => false).length
-  nOs ≤ 1 && nDot ≤ 1 && nFiles ≤ 1 &&
+  nOs ≤ 1 && nDot ≤ 1 && nFiles ≤ 1 && workdirEarly &&
     (nDot == 0 || envOpts.getLast? == some .withDotEnv)
 
 /-- spec side of the oracle, computed from the options *syntactically* (no option state machine) -/
@@ -95,6 +103,8 @@ def specJson (w : World) (opts : List Opt) : Json :=
   let badName := names.any fun n => n ≠ [] && !validName n
   let explicit := names.getLast?.getD []
   let expl := Spec.explicitLayer opts
+  let alt := opts.contains (.withWorkDir true)
+  let pdir := if alt then w.altDir else w.dir
   let hasOs := opts.contains .withOsEnv
   let hasDot := opts.contains .withDotEnv
   let osL : Env := if hasOs then asEqualsMap w.os else []
@@ -105,8 +115,8 @@ def specJson (w : World) (opts : List Opt) : Json :=
     | none => some false
   let fileRefs : List FileRef := match sel with
     | none => []
-    | some [] => (match disabled, w.dotEnv with
-        | some false, some (.file _) => [.default]
+    | some [] => (match disabled, (if alt then w.altDotEnv else w.dotEnv) with
+        | some false, some (.file _) => [if alt then .defaultAlt else .default]
         | _, _ => [])
     | some l => l.map .named
   let filesOk := hasDot && fileRefs.all fun r => match lookupFile w r with | some (.file _) => true | _ => false
@@ -123,7 +133,7 @@ def specJson (w : World) (opts : List Opt) : Json :=
     let src : Spec.Sources := {
       explicit := explicit, fromEnv := projEnv.get cpn,
       fromFiles := (match Template.subst projEnv.get (Spec.selectedName w.files) with | .ok s => .ok s | _ => .error ()),
-      dirBase := w.dir }
+      dirBase := pdir }
     let dec := Spec.decide src
     let fin : List (String × Json) := match dec with
       | .name n =>
@@ -141,7 +151,7 @@ def specJson (w : World) (opts : List Opt) : Json :=
         ("explicit", str explicit),
         ("env", str ((projEnv.get cpn).getD [])),
         ("file", match src.fromFiles with | .ok s => str (normalize s) | _ => Json.null),
-        ("dir", str (normalize w.dir))]),
+        ("dir", str (normalize pdir))]),
       ("layers", Json.arr (layers.map envJson).toArray),
       ("env", envJson projEnv)] ++ fin)
 
